@@ -169,6 +169,67 @@ DRV_OP(ab_ndarrw) {
     });
 }
 
+// ab_tagname <T|M> <which> : the same tag / multi-tag asked BY NAME OR ID for the data of a reference / feature; <which> = ref (the
+// referenced array / the feature's array), other (an array of the block that is neither), gone (a reference that was removed again),
+// none (no such name), empty ("")      => ok <answer class per entry point …>
+DRV_OP(ab_tagname) {
+    if (a.size() != 3) throw ProtoError("ab_tagname arity");
+    return guarded([&]() {
+        std::string path = scratch("tagname.nix");
+        nix::File f = nix::File::open(path, nix::FileMode::Overwrite);
+        nix::Block b = f.createBlock("b", "t");
+        nix::DataArray da = b.createDataArray("a", "t", nix::DataType::Double, nix::NDSize({5}));
+        da.appendSampledDimension(1.0);
+        nix::DataArray fa = b.createDataArray("fa", "t", nix::DataType::Double, nix::NDSize({5}));
+        fa.appendSampledDimension(1.0);
+        nix::DataArray other = b.createDataArray("other", "t", nix::DataType::Double, nix::NDSize({5}));
+        other.appendSampledDimension(1.0);
+        nix::DataArray gone = b.createDataArray("gone", "t", nix::DataType::Double, nix::NDSize({5}));
+        gone.appendSampledDimension(1.0);
+        const std::string &w = a[2];
+        std::vector<std::string> out;
+        auto cls = [&](const std::function<void()> &call) {
+            std::string r = guarded([&]() { call(); return std::string(); });
+            out.push_back(r == "ok" ? "ok" : r.substr(0, 4) == "err " ? r.substr(4) : r);
+        };
+        auto keys = [&](const nix::DataArray &good) {
+            std::vector<std::string> k;
+            if (w == "ref") { k.push_back(good.name()); k.push_back(good.id()); }
+            else if (w == "other") { k.push_back(other.name()); k.push_back(other.id()); }
+            else if (w == "gone") { k.push_back(gone.name()); k.push_back(gone.id()); }
+            else if (w == "none") { k.push_back("no-such-array"); k.push_back("00000000-0000-0000-0000-000000000000"); }
+            else if (w == "empty") { k.push_back(""); }
+            else throw ProtoError("ab_tagname which");
+            return k;
+        };
+        if (a[1] == "T") {
+            nix::Tag t = b.createTag("t", "t", {1.0});
+            t.addReference(da); t.addReference(gone); t.removeReference(gone);
+            t.createFeature(fa, nix::LinkType::Tagged);
+            nix::Feature fg = t.createFeature(gone, nix::LinkType::Tagged); t.deleteFeature(fg);
+            for (auto &k : keys(da)) cls([&]() { t.taggedData(k); });
+            for (auto &k : keys(fa)) cls([&]() { t.featureData(k); });
+        } else {
+            nix::DataArray pos = b.createDataArray("p", "t", nix::DataType::Double, nix::NDSize({2}));
+            std::vector<double> pv = {1.0, 2.0}; pos.setData(pv);
+            nix::MultiTag t = b.createMultiTag("m", "t", pos);
+            t.addReference(da); t.addReference(gone); t.removeReference(gone);
+            t.createFeature(fa, nix::LinkType::Tagged);
+            nix::Feature fg = t.createFeature(gone, nix::LinkType::Tagged); t.deleteFeature(fg);
+            std::vector<nix::ndsize_t> l = {0, 1};
+            for (auto &k : keys(da)) {
+                cls([&]() { t.taggedData((size_t) 0, k); });
+                cls([&]() { std::vector<nix::ndsize_t> l2 = l; t.taggedData(l2, k); });
+            }
+            for (auto &k : keys(fa)) cls([&]() { t.featureData((size_t) 0, k); });
+        }
+        f.close();
+        std::string r;
+        for (size_t i = 0; i < out.size(); i++) r += (i ? " " : "") + out[i];
+        return r;
+    });
+}
+
 // ab_compare <B|S|O|A|D|T|M|G> : NamedEntity::compare of an entity of that kind with an uninitialised one, and with itself
 //   => ok <answer class of compare(uninitialised)> <compare(itself)>
 DRV_OP(ab_compare) {
